@@ -203,7 +203,7 @@ example :
   decide +kernel
 
 /-- a path-sensitive variant the linear scan cannot see: the accept loop unlocking only on the
-    admission branch (`if admitted { append; unlock }`) — the next iteration locks again while
+    accepting branch (`if accepted { append; unlock }`) — the next iteration locks again while
     holding -/
 example :
     entryCheck
